@@ -181,6 +181,14 @@ def parseOp (line : String) : Option Op :=
   | ["end"] => some .endBind
   | ["raise"] => some .raise
   | ["sync"] => some .sync
+  | ["subbus", b, o, ch] => do some (.subbus (← hOf 'b' b) (← iOf o) (← iOf ch))
+  | ["bread", u, a, b, c, lo] => do some (.bread (← hOf 'u' u) (← iOf a) (← iOf b) (← iOf c) (← bOf lo))
+  | ["bloadlist", u, a] => do some (.bloadlist (← hOf 'u' u) (← iOf a))
+  | "bwrite" :: u :: hdr :: fr :: st :: lo :: r => do
+    some (.bwrite (← hOf 'u' u) (tail1 hdr) (← iOf fr) (← iOf st) (← bOf lo) (← complOnly r))
+  | "ballocread" :: u :: st :: fr :: r => do
+    some (.ballocread (← hOf 'u' u) (← iOf st) (← iOf fr) (← complOnly r))
+  | "bcue" :: u :: st :: r => do some (.bcue (← hOf 'u' u) (← iOf st) (← complOnly r))
   | ["register", n] => do some (.register (← hOf 'n' n))
   | "synth" :: name :: tgt :: act :: r => do
     some (.synth false name (← parseTarget tgt) (← parseAction act) (← one r))
